@@ -218,13 +218,18 @@ class Unit:
         self.props = {}     # fn name -> set(property ids) from //@ tags directives
         self.tags = []      # list of (kind, value)
 
-    def build(self, canary=False, devs=()):
-        src = open(self.spec_path).read()
-        lines = src.split("\n")
-        # deviation switches: //@ ifdev NAME ... //@ else ... //@ endif   (line count preserved)
+    def _load(self, path, devs, depth=0):
+        """-> list of [text, file, lineno] with `//@ include f` expanded and `//@ ifdev` resolved"""
+        if depth > 5:
+            raise ExtractError("include depth")
+        try:
+            raw = open(path).read().split("\n")
+        except OSError as e:
+            raise ExtractError("cannot read spec file %s: %s" % (path, e))
+        base = os.path.relpath(path, os.path.dirname(os.path.dirname(self.spec_path))) if path != self.spec_path else os.path.basename(path)
+        out = []
         stack = []          # entries: [parent_active, cond, in_else]
-        self.deviations_declared = []
-        for k, ln in enumerate(lines):
+        for k, ln in enumerate(raw):
             s0 = ln.strip()
             cur_active = all((c if not e else not c) for _, c, e in stack)
             if s0.startswith("//@ ifdev "):
@@ -232,15 +237,29 @@ class Unit:
                 if nm not in self.deviations_declared:
                     self.deviations_declared.append(nm)
                 stack.append([cur_active, nm in devs, False])
-                lines[k] = ""
+                out.append(["", base, k + 1])
             elif s0 == "//@ else" and stack:
                 stack[-1][2] = True
-                lines[k] = ""
+                out.append(["", base, k + 1])
             elif s0 == "//@ endif" and stack:
                 stack.pop()
-                lines[k] = ""
+                out.append(["", base, k + 1])
             elif not cur_active:
-                lines[k] = ""
+                out.append(["", base, k + 1])
+            elif s0.startswith("//@ include "):
+                inc = os.path.join(os.path.dirname(self.spec_path), s0.split()[2])
+                out.append(["// ---- include %s" % s0.split()[2], base, k + 1])
+                out.extend(self._load(inc, devs, depth + 1))
+                out.append(["// ---- end include %s" % s0.split()[2], base, k + 1])
+            else:
+                out.append([ln, base, k + 1])
+        return out
+
+    def build(self, canary=False, devs=()):
+        self.deviations_declared = []
+        loaded = self._load(self.spec_path, devs)
+        lines = [x[0] for x in loaded]
+        origin_of = [(x[1], x[2]) for x in loaded]
         out_lines = []
         linemap = []
         i = 0
@@ -267,7 +286,8 @@ class Unit:
                     raise ExtractError("unterminated extract region at line %d" % (i + 1))
                 ttoks = lex("\n".join(body))
                 for t in ttoks:
-                    t.line += i + 1
+                    t.line += origin_of[i][1]
+                tfile = origin_of[i][0]
                 gen = self._build_region(reg, ttoks, src_cache, canary)
                 start_line = len(out_lines) + 1
                 out_lines.append("// ---- extracted from /repo/%s : %s (rules: %s; drift tokens: %d)" %
@@ -286,7 +306,7 @@ class Unit:
                     if not cur:
                         cur_key = key
                         cur_org = {"origin": origin, "region": reg.name,
-                                   "file": reg.file if origin in ("src", "rw") else os.path.basename(self.spec_path),
+                                   "file": reg.file if origin in ("src", "rw") else tfile,
                                    "line": t.line}
                         cur.append(t.text)
                     else:
@@ -305,7 +325,7 @@ class Unit:
                     for fn in m.group(2).split():
                         self.props.setdefault(fn, set()).update(m.group(1).split())
             out_lines.append(ln)
-            linemap.append({"origin": "spec", "file": os.path.basename(self.spec_path), "line": i + 1})
+            linemap.append({"origin": "spec", "file": origin_of[i][0], "line": origin_of[i][1]})
             i += 1
         self.text = "\n".join(out_lines)
         self.linemap = linemap
@@ -328,6 +348,8 @@ class Unit:
         for r in reg.rules:
             code1, cnt = rewrites.apply(r, code1)
             reg.rewrites_applied[r] = cnt
+            # the template may show either the original or the rewritten form
+            ttoks, _ = rewrites.apply(r, ttoks)
         # attributes in the template before the item keyword are annotations (the source's own
         # attributes are outside the extracted range: derives are re-stated by the template)
         lead = []
